@@ -336,8 +336,13 @@ def build_negative_source(x, feats, std):
             continue
         for place in ("derive_more", "derive_more::derive", "derive_more::with_trait"):
             add("%s::%s" % (place, d))
+    # helper types: expected under S iff some TEMPLATE compiled in under S names them (T-gen from the impl crate's
+    # templates: an independent table) - not the facade's own cfg, which is what is being checked; types no template
+    # names fall back to their cfg guard
+    by_item = {h["item"]: h["uses"] for h in x["helpers"]}
     for s_ in x["surface"]:
-        if not c20_cfg.f_eval(s_["guard"], val):
+        expected = by_item.get(s_["path"], s_["guard"])
+        if not c20_cfg.f_eval(expected, val):
             add(s_["path"])
     lines.append("fn main() {}")
     return "\n".join(lines) + "\n", probes
